@@ -781,10 +781,10 @@ Section RegionFacts.
   Lemma inv_setpf st F F' bpp c :
     0 < sW st -> 0 < sH st ->
     InvC (sW st) (sH st) F c -> InvC (sW st) (sH st) F' (setpf_client st bpp c) /\
-    cBpp (setpf_client st bpp c) = bpp.
+    cBpp (setpf_client st bpp c) = mkX (sBpp st) bpp.
   Proof.
     intros HW HH [I S]. unfold setpf_client.
-    set (c1 := set_flags (set_bpp c bpp) (cUseCopy c) (cShape c) (cCurChanged c) true (cUseNewFB c) (cUseExt c)).
+    set (c1 := set_flags (set_bpp c (mkX (sBpp st) bpp)) (cUseCopy c) (cShape c) (cCurChanged c) true (cUseNewFB c) (cUseExt c)).
     assert (I1 : InvC (sW st) (sH st) F c1).
     { split; [apply (core_ext _ _ _ c); try (destruct c; reflexivity); exact I|].
       unfold SizeOK in *. destruct c; csimpl. exact S. }
@@ -938,10 +938,13 @@ Section RegionFacts.
         cbv beta in Ha. destruct (cScaled a); [discriminate|].
         inversion Ha; subst. cbn in Ia.
         apply invc_Fext with (F := fb_for (mkState sW sH sBpp sFBid sFB sCursor sCurX sCurY sMaxRects sSliceH sClients sExt) a).
-        { intros x0 y0 _. unfold fb_for, fbf. cbn. f_equal. unfold request_client.
-          destruct (req_clip sW sH x y w h) as [[[[? ?] ?] ?]|]; [|reflexivity].
-          destruct (_ || _); [reflexivity|].
-          destruct incr; destruct a; csimpl; [reflexivity|]. destruct cUseExt; reflexivity. }
+        { intros x0 y0 _.
+          assert (Hb : cBpp (request_client sW sH incr x y w h a) = cBpp a).
+          { unfold request_client.
+            destruct (req_clip sW sH x y w h) as [[[[? ?] ?] ?]|]; [|reflexivity].
+            destruct (_ || _); [reflexivity|].
+            destruct incr; destruct a; csimpl; [reflexivity|]. destruct cUseExt; reflexivity. }
+          unfold fb_for, fbf. rewrite Hb. reflexivity. }
         apply inv_request; assumption.
     - (* SetEncodings *)
       destruct (upd_nth c (sClients st) _) as [[l m]|] eqn:Eu; [|discriminate]. inversion Hs; subst.
@@ -951,12 +954,15 @@ Section RegionFacts.
       + intros a a' m' Ha Ia. inversion Ha; subst. cbn in Ia.
         set (st0 := mkState sW sH sBpp sFBid sFB sCursor sCurX sCurY sMaxRects sSliceH sClients sExt) in *.
         apply invc_Fext with (F := fb_for st0 a).
-        { intros x0 y0 _. unfold fb_for. f_equal. unfold setenc_client.
-          repeat match goal with
-                 | |- context [if ?b then _ else _] => destruct b
-                 end; unfold client_resize; repeat match goal with
-                 | |- context [if ?b then _ else _] => destruct b
-                 end; destruct a; reflexivity. }
+        { intros x0 y0 _.
+          assert (Hb : cBpp (setenc_client st0 copyrect shape newfb ext a) = cBpp a).
+          { unfold setenc_client.
+            repeat match goal with
+                   | |- context [if ?b then _ else _] => destruct b
+                   end; unfold client_resize; repeat match goal with
+                   | |- context [if ?b then _ else _] => destruct b
+                   end; destruct a; reflexivity. }
+          unfold fb_for. rewrite Hb. reflexivity. }
         apply (inv_setenc st0); assumption.
     - (* SetCursor *)
       inversion Hs; subst. clear Hs. unfold setcursor_state.
@@ -1032,7 +1038,8 @@ Section RegionFacts.
         apply invc_Fext with (F := fb_for st a); [|exact G1].
         intros x y _. unfold fb_for. rewrite G2. destruct st; reflexivity.
     - (* NewFB *)
-      destruct ((0 <? w) && (0 <? h) && ((bpp =? 1) || (bpp =? 2) || (bpp =? 4))) eqn:Eok; [|discriminate].
+      destruct ((0 <? w) && (0 <? h) && fmt_ok bpp) eqn:Eok; [|discriminate].
+      apply andb_prop in Eok. destruct Eok as [Eok _].
       inversion Hs; subst. clear Hs.
       unfold Inv, newfb_state.
       pose proof (rescale_clients_R w h (sW st) (sH st) (rev (sClients st)) []) as HR.
@@ -1040,7 +1047,8 @@ Section RegionFacts.
       cbn [sW sH sCursor sClients snd] in *.
       split; [lia|]. split; [lia|]. split; [exact Hcur|].
       apply Forall_map. apply Forall_rev. eapply Forall_impl; [|apply HR].
-      + intros c HWR. apply newfb_client_inv; [lia|lia|exact HWR].
+      + intros c HWR. apply newfb_client_inv; [lia|lia|].
+        unfold reselect. destruct (bpp =? UpdateDefs.sBpp st); [exact HWR|destruct c; exact HWR].
       + apply Forall_rev. eapply Forall_impl; [|exact Hcl]. intros c [I _]. apply (iWR _ _ _ _ I).
     - (* SetDesktopSize *)
       destruct (c <? length (sClients st))%nat; [|discriminate].
@@ -1058,11 +1066,11 @@ Section RegionFacts.
       { intros l0 b a [I S].
         apply invc_Fext with (F := fb_for st a).
         { intros x y _. unfold fb_for, setdesktop_one.
-          destruct b; destruct (hookres =? 0); destruct a; destruct st; reflexivity. }
+          destruct b; destruct (hookres =? 0); try destruct (sds_keeps_own_answer && _); destruct a; destruct st; reflexivity. }
         split.
-        - apply (core_ext _ _ _ a); try (unfold setdesktop_one; destruct b; destruct (hookres =? 0); destruct a; reflexivity).
+        - apply (core_ext _ _ _ a); try (unfold setdesktop_one; destruct b; destruct (hookres =? 0); try destruct (sds_keeps_own_answer && _); destruct a; reflexivity).
           exact I.
-        - unfold SizeOK, setdesktop_one in *. destruct b; destruct (hookres =? 0); destruct a; csimpl; tauto. }
+        - unfold SizeOK, setdesktop_one in *. destruct b; destruct (hookres =? 0); try destruct (sds_keeps_own_answer && _); destruct a; csimpl; tauto. }
       clear Hs HI.
       generalize (setdesktop_clients_at c hookres (sClients st)) at 1. intros l0.
       revert Hcl. generalize (sClients st). revert c.
@@ -1138,6 +1146,18 @@ Section RegionFacts.
         intros x y _. unfold fb_for. destruct a; destruct st; reflexivity.
       + apply invc_Fext with (F := fb_for st a); [|exact Ia].
         intros x y _. unfold fb_for. destruct st; reflexivity.
+    - (* DrawPal: as Draw, the painted values are arbitrary *)
+      destruct cols as [|col0 cols']; [discriminate|]. set (cols := col0 :: cols') in *.
+      destruct (mark_clip (sW st) (sH st) x1 y1 x2 y2) as [rc|] eqn:Emc; inversion Hs; subst; [|exact HI].
+      unfold Inv. destruct st; cbn in *. repeat split; try assumption.
+      apply Forall_map. eapply Forall_impl; [|exact Hcl]. intros c I. cbn in I.
+      destruct (mark_clip_inside _ _ _ _ _ _ _ Emc) as [Hne Hrin].
+      apply (inv_mark _ _ (fb_for (mkState sW sH sBpp sFBid sFB sCursor sCurX sCurY sMaxRects sSliceH sClients sExt) c) _ c (rect_rgn rc) I);
+        [apply rect_rgn_wf; exact Hne| |].
+      + intros x y Hm. rewrite rect_rgn_mem in Hm. auto.
+      + intros x y Hxy Hm. rewrite rect_rgn_mem in Hm. unfold fb_for, fbf. cbn [UpdateDefs.sFB UpdateDefs.sBpp UpdateDefs.set_fb UpdateDefs.set_clients].
+        replace (cBpp (mark_client (rect_rgn rc) c)) with (cBpp c) by (destruct c; reflexivity).
+        rewrite pic_get_build by (unfold inS in Hxy; lia). unfold apply_raw. rewrite Hm. reflexivity.
   Qed.
 
   Lemma step_inv st o st' out : Inv st -> op_ok st o -> step st o = Some (st', out) -> Inv st'.
